@@ -30,6 +30,7 @@ pub enum Cond {
     Or(Vec<Cond>),
     Not(Box<Cond>),
     CatEq(CatT, String),
+    StrEq(Box<Term>, String),
 }
 
 #[derive(Clone, Debug, PartialEq)]
@@ -85,6 +86,7 @@ impl Cond {
             Cond::Or(v) => json!({"c":"or","a":v.iter().map(|c| c.to_json()).collect::<Vec<_>>()}),
             Cond::Not(c) => json!({"c":"not","a":c.to_json()}),
             Cond::CatEq(c, v) => json!({"c":"cateq","x":c.to_json(),"v":v}),
+            Cond::StrEq(t, v) => json!({"c":"streq","x":t.to_json(),"v":v}),
         }
     }
 }
